@@ -294,3 +294,61 @@ def known_witness(fid):
         r2 = im.calc_sig_dur(eqsig.AccSignal(np.concatenate([np.zeros(2), a]), 0.5), start=0.05, end=0.9, se=True)
         return not (r2[0] == r0[0] + 1.0 and r2[1] == r0[1] + 1.0)
     return True
+
+
+# ---- extras (round-3 lessons): deprecated aliases, extreme magnitudes -------------------------------------------------------------------
+
+def extras(ctx):
+    import eqsig
+    from eqsig import im
+    import warnings
+    rng = ctx.rng
+    for it in range(30 if ctx.tier == 'quick' else 300):
+        n = gen.log_int(rng, 3, 120)
+        dt = gen.dyadic_dt(rng)
+        a = gen.dyadic_record(rng, n)
+        if len(set(np.abs(a).tolist())) < 2:
+            continue
+        s, e = rng.choice([(0.05, 0.95), (0.05, 0.75), (0.25, 0.75), (0.125, 0.5)])
+        inputs = {'a': a, 'dt': dt, 'start': s, 'end': e}
+        ctx.count_case(('extras', a.tobytes(), dt, s, e), True)
+        with warnings.catch_warnings():
+            warnings.simplefilter('ignore')
+            r0 = call_impl(im.calc_sig_dur_vals, a, dt, start=s, end=e, se=True)
+            r1 = call_impl(im.calc_significant_duration, a, dt, start=s, end=e)
+            ok = r0[0] == r1[0] and (r0[0] != 'ok' or (isinstance(r1[1], tuple) and tuple(map(float, r0[1])) == tuple(map(float, r1[1]))) or
+                                     (not isinstance(r1[1], tuple) and float(r1[1]) == float(r0[1][1]) - float(r0[1][0])))
+            ctx.oracle('C10 deprecated alias calc_significant_duration agrees with calc_sig_dur_vals', ok, inputs, detail=(r0, r1))
+            thr = float(rng.choice(sorted(set(np.abs(a).tolist())))) * rng.choice([0.5, 1.0, 0.999])
+            asig = ctx.aged(eqsig.AccSignal, a, dt)
+            b0, b1 = call_impl(im.calc_brac_dur, asig, thr), call_impl(im.calc_bracketed_duration, asig, thr)
+            ctx.oracle('C10 deprecated alias calc_bracketed_duration == calc_brac_dur', b0 == b1 or (b0[0] == b1[0] == 'ok' and float(b0[1]) == float(b1[1])),
+                       {**inputs, 'threshold': thr}, detail=(b0, b1))
+        # durations do not depend on the scale of the record, exactly for powers of two, also at extreme scales (the sum of squares of a
+        # record around 1e-120 / 1e+120 is still representable; the record itself must come back unchanged)
+        for k in (-400, 400, -200, 200):
+            sc = 2.0 ** k
+            ctx.hist(f'extreme-scale/2^{k}')
+            arr = a * sc
+            snap = arr.copy()
+            r2 = call_impl(im.calc_sig_dur_vals, arr, dt, start=s, end=e, se=True)
+            ctx.oracle('C10.c significant duration unchanged by amplitude scaling, also at extreme scales (sum of squares)', r2 == r0 or
+                       (r2[0] == r0[0] == 'ok' and tuple(map(float, r2[1])) == tuple(map(float, r0[1]))), {**inputs, 'scale': f'2**{k}'}, detail=(r0, r2))
+            ctx.oracle('C10 the record handed to calc_sig_dur_vals is unchanged, also at extreme scales', bool(np.array_equal(arr, snap)), {**inputs, 'scale': f'2**{k}'})
+            o1, o2 = eqsig.AccSignal(a, dt), ctx.aged(eqsig.AccSignal, arr, dt)
+            q1, q2 = call_impl(im.calc_sig_dur, o1, start=s, end=e, se=True), call_impl(im.calc_sig_dur, o2, start=s, end=e, se=True)
+            ctx.oracle('C10.c significant duration unchanged by amplitude scaling, also at extreme scales (Arias)', q1 == q2 or
+                       (q1[0] == q2[0] == 'ok' and tuple(map(float, q1[1])) == tuple(map(float, q2[1]))), {**inputs, 'scale': f'2**{k}'}, detail=(q1, q2))
+            t = float(np.sort(np.abs(a))[len(a) // 2])
+            d1, d2 = call_impl(im.calc_brac_dur, o1, t, se=True), call_impl(im.calc_brac_dur, o2, t * sc, se=True)
+            ctx.oracle('C10.e bracketed duration unchanged when record and threshold scale together, also at extreme scales', d1 == d2,
+                       {**inputs, 'threshold': t, 'scale': f'2**{k}'}, detail=(d1, d2))
+
+
+_run_main = run
+
+
+def run(ctx):
+    _run_main(ctx)
+    extras(ctx)
+    ctx.flush()
